@@ -68,7 +68,7 @@ fn is_frame_prefix(delivered: &[i32], orig: &Decoded) -> bool {
 fn corpus(seed: u64, thorough: bool) -> Vec<(String, Vec<u8>, Vec<i32>)> {
     let mut out = vec![];
     let mut rng = Rng::new(seed, 0xC05);
-    let n = if thorough { 240 } else { 14 };
+    let n = if thorough { 1000 } else { 14 };
     for i in 0..n {
         let ch = *rng.pick(&[1u8, 2, 2, 3]);
         let bps = *rng.pick(&[8u32, 12, 16, 16, 24, 32, 5]);
